@@ -288,7 +288,8 @@ func signingInput(headers jws.Headers, payload []byte) ([]byte, error) {
 }
 
 func checkJWSHeaders(headers jws.Headers) error {
-	if _, ok := headers[jws.HeaderAlgorithm]; !ok {
+	// a null, empty or non-string value names no algorithm
+	if alg, ok := headers.Algorithm(); !ok || alg == "" {
 		return fmt.Errorf("%s JWS header is not defined", jws.HeaderAlgorithm)
 	}
 
